@@ -96,6 +96,9 @@ func NewPrivateKeyFromXML(xmlInput string, demo bool) (*PrivateKey, error) {
 		return nil, err
 	}
 
+	if privk.P == nil || privk.Q == nil || privk.PPrime == nil || privk.QPrime == nil {
+		return nil, errors.New("private key lacks one of p, q, pPrime, qPrime")
+	}
 	if !demo {
 		// Do some sanity checks on the key data
 		if err := privk.Validate(); err != nil {
@@ -278,6 +281,9 @@ func NewPublicKeyFromBytes(bts []byte) (*PublicKey, error) {
 	}
 	if pubk.N == nil {
 		return nil, errors.New("public key has no modulus")
+	}
+	if pubk.Z == nil || pubk.S == nil || pubk.R == nil {
+		return nil, errors.New("public key lacks Z, S or the list of bases")
 	}
 	keylength := pubk.N.BitLen()
 	if sysparam, ok := DefaultSystemParameters[keylength]; ok {
